@@ -830,10 +830,10 @@ def run(ctx):
     # the EMPTY history: a string parsed as the very first thing a process does gets the same tree as under any other history. Each of these short
     # histories is executed in a new interpreter (nothing was parsed there before); in it every parse is compared with the raw parser as usual.
     if True:
-        firsts = [[["parse", "ahb", "Muss [1] ∧ ([2] ∨ [3]) Soll [4] ⊻ [5]"], ["parse", "ahb", "Muss [1] ∧ ([2] ∨ [3]) Soll [4] ⊻ [5]"]],
-                  [["parse", "cond", "[1] ∧ ([2] ∨ [3]) ⊻ [4]"], ["parse", "ahb", "X [1] ∨ [2]"], ["parse", "cond", "[1] ∧ ([2] ∨ [3]) ⊻ [4]"]],
-                  [["parse", "ahb", "muss[1]u[2] kann[3]o[4]"], ["parse", "ahb", "M [5] ⊻ [6]"], ["parse", "cond", "[1]u[2]"]],
-                  [["parse", "ahb", rng.choice(pools["ahb"])], ["parse", "cond", rng.choice(pools["cond"])], ["parse", "ahb", rng.choice(pools["ahb"])]]]
+        firsts = [[["parse", "ahb", "Muss [1] ∧ ([2] ∨ [3]) Soll [4] ⊻ [5]", 1], ["parse", "ahb", "Muss [1] ∧ ([2] ∨ [3]) Soll [4] ⊻ [5]", 2]],
+                  [["parse", "cond", "[1] ∧ ([2] ∨ [3]) ⊻ [4]", 1], ["parse", "ahb", "X [1] ∨ [2]", 2], ["parse", "cond", "[1] ∧ ([2] ∨ [3]) ⊻ [4]", 3]],
+                  [["parse", "ahb", "muss[1]u[2] kann[3]o[4]", 1], ["parse", "ahb", "M [5] ⊻ [6]", 2], ["parse", "cond", "[1]u[2]", 3]],
+                  [["parse", "ahb", rng.choice(pools["ahb"]), 1], ["parse", "cond", rng.choice(pools["cond"]), 2], ["parse", "ahb", rng.choice(pools["ahb"]), 3]]]
         for h in firsts:
             if reproduces_in_fresh_process(h):
                 key = "history|" + hashlib.sha1(json.dumps(h, ensure_ascii=False).encode()).hexdigest()[:12]
